@@ -73,8 +73,13 @@ def tree_model(draw, min_tokens=1, max_tokens=8, disc=0.5, unary=True, words=pla
     steps = draw(st.integers(0, n + 2))
     use_disc = disc > 0 and draw(st.floats(0, 1)) < disc
     target_root = draw(st.integers(min_root, max_root if max_root else max(min_root, 4)))
-    for _ in range(steps):
-        if len(items) <= target_root and len(items) > 1 and draw(st.booleans()):
+    step = 0
+    while True:
+        step += 1
+        forced = max_root is not None and len(items) > max_root
+        if step > steps and not forced:
+            break
+        if not forced and len(items) <= target_root and len(items) > 1 and draw(st.booleans()):
             break
         lo = 1 if unary else 2
         hi = min(max_arity, len(items))
@@ -82,6 +87,8 @@ def tree_model(draw, min_tokens=1, max_tokens=8, disc=0.5, unary=True, words=pla
             hi = max(1, len(items) - min_root + 1)
         if hi < lo:
             break
+        if forced:
+            lo = min(2, hi)
         k = draw(st.integers(lo, hi))
         if use_disc and k < len(items) and draw(st.booleans()):
             idxs = sorted(draw(st.lists(st.integers(0, len(items) - 1), min_size=k, max_size=k, unique=True)))
